@@ -39,6 +39,8 @@ class Engine:
         self.abstract_first = os.environ.get("VF_ABSTRACT", "1") == "1"
         self.relevance = os.environ.get("VF_RELEVANCE", "1") == "1"
         self.opaque_ext = os.environ.get("VF_OPAQUE_EXT", "1") == "1"  # abs/max/min as shared defined symbols instead of If-terms
+        self._som_cache = {}
+        self.branch_timeout_ms = int(os.environ.get("VF_BRANCH_TIMEOUT_MS", "3000"))
         self.perturb = None  # None or z3 Real delta: comparisons decided with margin (C06-tie mode)
 
     # ---- per path state
@@ -72,12 +74,23 @@ class Engine:
             self.pc.append(c)
             self.solver.add(c)
 
+    def _som(self, f):
+        k = f.get_id()
+        c = self._som_cache.get(k)
+        if c is None:
+            c = (f, z3.simplify(f, som=True, som_blowup=self.som_blowup, expand_power=True))  # keep f alive: ids are reused after gc
+            if len(self._som_cache) > 50000:
+                self._som_cache.clear()
+            self._som_cache[k] = c
+        return c[1]
+
     def canon(self, t):
         return z3.simplify(t, som=True, som_blowup=self.som_blowup, expand_power=True)
 
-    def define(self, b):
+    def define(self, b, solver_too=True):
         self.defs.append(b)
-        self.solver.add(b)
+        if solver_too:
+            self.solver.add(b)
 
     def def_abs(self, t):
         """|t| as a shared opaque symbol y with y >= 0, (y == t or y == -t); same canonical polynomial (up to sign) -> same symbol"""
@@ -134,8 +147,8 @@ class Engine:
         if self.pos < len(self.prefix):
             v = self.prefix[self.pos]
         else:
-            can_t = self._check(c) != z3.unsat  # unknown counts as feasible (over-approximation)
-            can_f = self._check(z3.Not(c)) != z3.unsat
+            can_t = self._side_feasible(c)  # unknown counts as feasible (over-approximation)
+            can_f = self._side_feasible(z3.Not(c))
             if can_t and can_f:
                 self.work.append(self.prefix + [False])
                 self.stats["forks"] += 1
@@ -150,6 +163,31 @@ class Engine:
         self.pos += 1
         self.assume(c if v else z3.Not(c))
         return v
+
+    def _side_feasible(self, cond):
+        """may the path continue with `cond`?  Only a proof of infeasibility prunes: first the linear relaxation (fast, sound for unsat), then the
+        incremental solver under a short time limit; anything else counts as feasible."""
+        t0 = time.time()
+        self.stats["feas_queries"] += 1
+        try:
+            ab = abstract_nonlinear([self._som(f) for f in (self.pc + self.defs + [cond])])
+            sa = z3.Solver()
+            sa.set("timeout", 5000)
+            sa.add(*ab)
+            if sa.check() == z3.unsat:
+                return False
+        except z3.Z3Exception:
+            pass
+        finally:
+            self.stats["solver_s"] += time.time() - t0
+        self.solver.set("timeout", self.branch_timeout_ms)
+        try:
+            t0 = time.time()
+            r = self.solver.check(cond)
+            self.stats["solver_s"] += time.time() - t0
+            return r != z3.unsat
+        finally:
+            self.solver.set("timeout", self.timeout_ms)
 
     def explore(self, fn):
         """run fn() on every feasible path; yields ('ok', result) / ('exc', exception)"""
@@ -205,9 +243,10 @@ class Engine:
         fs_ += list(formulas)
         if self.som:
             # sum-of-monomials normal form: polynomially equal sub-terms of code and specification become identical terms
-            fs_ = [z3.simplify(f, som=True, som_blowup=self.som_blowup, expand_power=True) for f in fs_]
+            fs_ = [self._som(f) for f in fs_]
         t0 = time.time()
-        if self.abstract_first and fs_:
+        quantified = any(_has_quantifier(f) for f in formulas)
+        if self.abstract_first and fs_ and not quantified:
             # sound shortcut: replace every non-linear sub-term (product of unknowns, division by an unknown) by an opaque fresh
             # real; identical terms get the same symbol.  unsat of this linear relaxation implies unsat of the real query.
             try:
@@ -260,6 +299,21 @@ class Engine:
         return str(r), (s.model() if r == z3.sat else None)
 
 
+def _has_quantifier(t):
+    stack = [t]
+    seen = set()
+    while stack:
+        u = stack.pop()
+        if u.get_id() in seen:
+            continue
+        seen.add(u.get_id())
+        if z3.is_quantifier(u):
+            return True
+        if z3.is_app(u):
+            stack.extend(u.children())
+    return False
+
+
 def poly_key(t):
     """order-insensitive key of a term (arguments of + and * sorted recursively)"""
     if z3.is_app(t) and t.num_args() > 0:
@@ -287,7 +341,7 @@ def _symbols(t):
     """names of the uninterpreted constants occurring in a term"""
     k = t.get_id()
     if k in _SYM_CACHE:
-        return _SYM_CACHE[k]
+        return _SYM_CACHE[k][1]
     out = set()
     seen = set()
     stack = [t]
@@ -308,8 +362,8 @@ def _symbols(t):
                 stack.extend(u.children())
     if len(_SYM_CACHE) > 200000:
         _SYM_CACHE.clear()
-    _SYM_CACHE[k] = frozenset(out)
-    return _SYM_CACHE[k]
+    _SYM_CACHE[k] = (t, frozenset(out))  # keep t alive: z3 reuses ids of collected terms
+    return _SYM_CACHE[k][1]
 
 
 def abstract_nonlinear(formulas):
@@ -453,7 +507,8 @@ class S:
         y = e.fresh_real("sqrt")
         # definitional (always included, also in queries against a truncated path condition); unsatisfiable iff the argument is negative
         e.define(z3.And(y >= 0, y * y == c))
-        e.def_of[y.decl().name()] = e.defs[-1]
+        e.def_of[y.decl().name()] = z3.And(y >= 0, y * y == c, z3.Implies(c <= 0, y == 0))
+        e.define(z3.Implies(c <= 0, y == 0), solver_too=False)  # implied by the definition; it keeps the linear relaxation useful
         r = S(y)
         e.notes[k] = r
         return r
